@@ -55,6 +55,9 @@ pub assume_specification<'a, K, V, S, A, Q>[ HashMap::<K, V, S, A>::get_mut::<Q>
 ;
 #[verifier::external_body]
 fn msg() -> String { String::new() }
+// R32: the keys of a map, each exactly once (std: values_mut visits every entry once)
+#[verifier::external_body] fn map_keys<V>(m: &HashMap<TxId, V>) -> (r: Vec<TxId>)
+    ensures r@.no_duplicates(), forall|k: TxId| #[trigger] r@.contains(k) <==> m@.contains_key(k) { m.keys().copied().collect() }
 pub proof fn axiom_keys()
     ensures obeys_key_model::<TxId>(), obeys_key_model::<EntityId>()
 { admit(); }
@@ -174,6 +177,8 @@ impl TransactionManager {
     @@TransactionManager::mark_committed@@
 
     @@TransactionManager::last_assigned_tx_id@@
+
+    @@TransactionManager::abort_all_active@@
 }
 
 // ---- C03 over the contracts alone (callers see only callee contracts) -------------------------------
@@ -585,6 +590,38 @@ proof {
         if T0.contains_key(t) { }
     }
 }''')
+    f = u.method(SRC, 'TransactionManager', 'abort_all_active').D1().props('C02')
+    f.sub('E3', 'pub fn abort_all_active(&self)', 'pub fn abort_all_active(&mut self)')
+    f.sub('E3', '    let mut txns = self.transactions.write();\n', '')
+    f.resub('E3', r'\btxns\b', 'self.transactions')
+    f.R32()
+    f.ensures('no_active_left', 'forall|t: TxId| #![trigger final(self).transactions@.contains_key(t)] final(self).transactions@.contains_key(t) == old(self).transactions@.contains_key(t)'
+              ' && (old(self).transactions@.contains_key(t) ==> final(self).transactions@[t].state == (if old(self).transactions@[t].state == TxState::Active { TxState::Aborted } else { old(self).transactions@[t].state })'
+              ' && final(self).transactions@[t].write_set == old(self).transactions@[t].write_set && final(self).transactions@[t].read_set == old(self).transactions@[t].read_set'
+              ' && final(self).transactions@[t].start_epoch == old(self).transactions@[t].start_epoch)', ['C02'])
+    f.ensures('frame', 'final(self).committed_epochs@ == old(self).committed_epochs@ && final(self).current_epoch == old(self).current_epoch && final(self).next_tx_id == old(self).next_tx_id')
+    f.body_start('proof { axiom_keys(); }\nlet ghost T0 = self.transactions@;')
+    L = f.loop('in 0..keys__1.len()').kind('for').props('C02')
+    DONE = '(if T0[%s].state == TxState::Active { TxState::Aborted } else { T0[%s].state })'
+    L.invariants(('keys', 'obeys_key_model::<TxId>() && obeys_key_model::<EntityId>() && keys__1@.no_duplicates() && (forall|k: TxId| #[trigger] keys__1@.contains(k) <==> T0.contains_key(k))'),
+                 ('frame', 'self.committed_epochs@ == old(self).committed_epochs@ && self.current_epoch == old(self).current_epoch && self.next_tx_id == old(self).next_tx_id && T0 == old(self).transactions@ && self.transactions@.dom() == T0.dom()'),
+                 ('done', 'forall|q: int| 0 <= q < i__1 ==> self.transactions@[#[trigger] keys__1@[q]].state == ' + (DONE % ('keys__1@[q]', 'keys__1@[q]'))),
+                 ('sets_kept', 'forall|t: TxId| #![trigger self.transactions@[t]] T0.contains_key(t) ==> self.transactions@[t].write_set == T0[t].write_set && self.transactions@[t].read_set == T0[t].read_set && self.transactions@[t].start_epoch == T0[t].start_epoch'),
+                 ('todo', 'forall|q: int| i__1 <= q < keys__1@.len() ==> self.transactions@[#[trigger] keys__1@[q]] == T0[keys__1@[q]]'))
+    L.body_start('let ghost pre = self.transactions@;\nproof { assert(keys__1@.contains(keys__1@[i__1 as int])); }')
+    L.body_end('''proof {
+    lemma_get_mut_effect(pre, self.transactions@, k__);
+    assert(pre[k__] == T0[k__]);
+    assert forall|q: int| 0 <= q < keys__1@.len() && q != i__1 implies keys__1@[q] != k__ && self.transactions@[#[trigger] keys__1@[q]] == pre[keys__1@[q]] by { assert(keys__1@.contains(keys__1@[q])); }
+}''')
+    L.after('''proof {
+    assert forall|t: TxId| T0.contains_key(t) implies self.transactions@[t].state == (if T0[t].state == TxState::Active { TxState::Aborted } else { T0[t].state }) by {
+        assert(keys__1@.contains(t));
+        let q = choose|q: int| 0 <= q < keys__1@.len() && keys__1@[q] == t;
+        assert(self.transactions@[keys__1@[q]].state == (if T0[keys__1@[q]].state == TxState::Active { TxState::Aborted } else { T0[keys__1@[q]].state }));
+    }
+}''')
+    u.trust('external_body map_keys', 'R32: HashMap::keys() lists every key exactly once')
     f = u.method(SRC, 'TransactionManager', 'mark_committed').D1().props('C03')
     f.sub('E3', 'pub fn mark_committed(&self,', 'pub fn mark_committed(&mut self,')
     f.sub('E3', 'self.committed_epochs.write().insert(', 'self.committed_epochs.insert(')
@@ -595,6 +632,6 @@ proof {
     f.sub('E2', 'self.next_tx_id.load(Ordering::Relaxed)', 'load_u64(&self.next_tx_id)')
     f.ensures('value', 'match r { Some(t) => self.next_tx_id > 1 && t.0 == self.next_tx_id - 1, None => self.next_tx_id <= 1 }')
     u.not_covered += [
-                      'TransactionManager::abort_all_active (HashMap::values_mut: no vstd model), active_count, state / start_epoch / isolation_level (Option::map closures), get_write_set',
+                      'TransactionManager::active_count, state / start_epoch / isolation_level (Option::map closures), get_write_set',
                       'Session / operators calling the manager; parallel.rs; every multi-threaded interleaving']
     return u
